@@ -94,6 +94,12 @@ CATALOGUE = [
     "struct Foo(class: UInt:8):\n  0 [+1]  UInt  x\n",
     "struct Foo:\n  0 [+2]  bits:\n    0 [+8]  UInt  x\n",
     "struct Foo:\n  0 [+2]  struct  foo:\n    0 [+1]  bits:\n      0 [+4]  UInt  a\n    1 [+1]  UInt  b\n",
+] + [
+    # numeric literals far beyond any integer type, in every radix and several positions (Python's 4300-digit limit)
+    tmpl % lit
+    for lit in ("9" * 4301, "1" + "0" * 6000, "0x" + "f" * 3600, "0b" + "1" * 14400, "0" * 5000 + "1", "1_000" * 1200)
+    for tmpl in ("struct Foo:\n  0 [+1]  UInt  x\n    [requires: this < %s]\n", "struct Foo:\n  0 [+%s]  UInt:8[]  x\n",
+                 "enum Ee:\n  AA = %s\n", "struct Foo:\n  0 [+1]  UInt  x\n  let y = x + %s\n", "struct Foo:\n  %s [+1]  UInt  x\n")
 ]
 
 
@@ -161,7 +167,8 @@ def gen_cases(tier):
     yield {"kind": "raw"}
     yield {"kind": "catalogue"}
     yield {"kind": "nesting", "depth": 2 if tier == "quick" else 3}
-    yield {"kind": "cli"}
+    for part in range(6):
+        yield {"kind": "cli", "part": part, "parts": 6}
 
 
 def offsets_of(text):
@@ -375,16 +382,33 @@ def check_case(case):
         import shutil
         viol = []
         n = 0
-        samples = [CATALOGUE[0], CATALOGUE[13], "struct Foo:\n  0 [+1]  UInt  x\n", "struct Foo:\n  0 [+1  UInt  x\n", "\x00", "enum Ee:\n  AA = true\n"]
-        for text in samples:
+        samples = [CATALOGUE[0], CATALOGUE[13], "struct Foo:\n  0 [+1]  UInt  x\n", "struct Foo:\n  0 [+1  UInt  x\n", "\x00", "enum Ee:\n  AA = true\n",
+                   "struct Foo:\n  0 [+1]  UInt  x\n    [requires: this < %s]\n" % ("9" * 4301)]
+        # files that are not text at all: every 1- and 2-byte string over a small byte alphabet, and valid programs with
+        # one non-UTF-8 byte in a comment / a name / a truncated multi-byte character at the end
+        BYTES = [b"\xe9", b"\xff", b"\xfe", b"\x80", b"\xc3", b"\xe2\x82", b"\n", b"a"]
+        raw = [a for a in BYTES] + [a + b for a in BYTES for b in BYTES]
+        raw += [b"struct Foo:\n  # caf\xe9\n  0 [+1]  UInt  x\n", b"struct Foo:\n  0 [+1]  UInt  x\xe9\n", b"struct Foo:\n  0 [+1]  UInt  x\n  -- \xe2\x82",
+                b"\xef\xbb\xbfstruct Foo:\n  0 [+1]  UInt  x\n", b'import "bad.emb" as b\nstruct Foo:\n  0 [+1]  UInt  x\n']
+        every = samples + raw
+        for text in every[case.get("part", 0)::case.get("parts", 1)]:
             d = tempfile.mkdtemp(prefix="embverif-")
             try:
-                with open(os.path.join(d, "m.emb"), "w", encoding="utf-8") as f:
-                    f.write(text)
+                if isinstance(text, bytes):
+                    with open(os.path.join(d, "m.emb"), "wb") as f:
+                        f.write(text)
+                    with open(os.path.join(d, "bad.emb"), "wb") as f:
+                        f.write(b"struct Bar:\n  # \xff\n  0 [+1]  UInt  x\n")
+                    tools = (("embossc", ["--color-output", "never", "--output-path", "out", "m.emb"]),)
+                    text = repr(text)
+                else:
+                    with open(os.path.join(d, "m.emb"), "w", encoding="utf-8") as f:
+                        f.write(text)
+                    tools = (("embossc", ["--color-output", "never", "--output-path", "out", "m.emb"]),
+                             ("emboss-format", ["--no-edit-in-place", "--color-output", "never", "m.emb"]))
                 env = dict(os.environ, PYTHONPATH=common.REPO)
                 env.pop("PYTHONDONTWRITEBYTECODE", None)
-                for tool, args in (("embossc", ["--color-output", "never", "--output-path", "out", "m.emb"]),
-                                   ("emboss-format", ["--no-edit-in-place", "--color-output", "never", "m.emb"])):
+                for tool, args in tools:
                     r = subprocess.run([sys.executable, os.path.join(common.REPO, tool)] + args, capture_output=True, text=True, cwd=d, env=env, timeout=300)
                     n += 1
                     if "Traceback (most recent call last)" in r.stderr:
@@ -393,7 +417,7 @@ def check_case(case):
                                      "detail": {"text": text, "stderr": r.stderr[-1500:]}})
             finally:
                 shutil.rmtree(d, ignore_errors=True)
-        return {"viol": viol, "n": n, "nt": ["cli-%d" % i for i in range(n)]}
+        return {"viol": viol, "n": n, "nt": ["cli-%d-%d" % (case.get("part", 0), i) for i in range(n)]}
     raise ValueError(k)
 
 
